@@ -579,7 +579,7 @@ func resolve(info *types.Info, body ast.Node, e ast.Expr, needStable bool) ast.E
 			return e
 		}
 		obj, _ := core.ObjOf(info, id).(*types.Var)
-		if obj == nil || obj.IsField() || !(body.Pos() <= obj.Pos() && obj.Pos() < body.End()) || Assignments(info, body, obj) != 1 {
+		if obj == nil || obj.IsField() || !DefinedIn(info, body, obj) || Assignments(info, body, obj) != 1 {
 			return e
 		}
 		var rhs ast.Expr
@@ -625,7 +625,7 @@ func stable(info *types.Info, body ast.Node, e ast.Expr) bool {
 			return true
 		}
 		limit := 0
-		if body.Pos() <= v.Pos() && v.Pos() < body.End() {
+		if DefinedIn(info, body, v) {
 			limit = 1
 		}
 		if Assignments(info, body, v) > limit {
